@@ -235,7 +235,8 @@ func runC08HTTPCmd(t *testing.T, c simrt.Chooser, o Opts) *Out {
 	}
 	wantRec := map[string]int{}
 	nfail := 0
-	for k, n := range want {
+	for _, k := range sortedProbeKeys(want) {
+		n := want[k]
 		addr := addrOf(k)
 		b := hp.behaviour(addr)
 		if dials[addr] == 0 {
@@ -260,7 +261,7 @@ func runC08HTTPCmd(t *testing.T, c simrt.Chooser, o Opts) *Out {
 			nfail += n
 		}
 	}
-	for a := range dials {
+	for _, a := range sortedKeys(dials) {
 		var ip [4]int
 		var port int
 		fmt.Sscanf(a, "%d.%d.%d.%d:%d", &ip[0], &ip[1], &ip[2], &ip[3], &port)
